@@ -53,8 +53,8 @@ def bags(ls):
 def coupled_constructs(ctx):
     """Asp25/Asp25' of the 1HPX dimer with the second fragment pushed away by 0 .. 1.2 A."""
     out = []
-    a = C.chain_lines("1HPX", "A", 22, 6)
-    b = C.chain_lines("1HPX", "B", 22, 6)
+    a = C.chain_lines("1HPX", "A", 20, 12)       # large enough for Asp25 / Asp25' to come out coupled
+    b = C.chain_lines("1HPX", "B", 20, 12)
     ca, cb = C.centroid(a), C.centroid(b)
     v = [cb[i] - ca[i] for i in range(3)]
     n = max(1, int(sum(x * x for x in v) ** 0.5))
@@ -103,6 +103,12 @@ def coupled_constructs(ctx):
             continue
         b2.append(ln)
     out.append(("asp-pair-coupled-in-altB-only", C.join(a + [C.TER] + b2 + [C.TER]), []))
+    # a coupled partner that is also penalised by covalent coupling: Asp25' as the N-terminal residue of its chain
+    # (N+ and the carboxylate are three bonds apart), still facing Asp25 of the other chain
+    cut = [ln for ln in full if not (C.is_atom(ln) and ln[21] == "B" and ln[:4] == "ATOM" and int(ln[22:26]) < 25)]
+    out.append(("1HPX-asp25B-at-chain-start", C.join(cut), []))
+    cutf = a + [C.TER] + [ln for ln in b if int(ln[22:26]) >= 25] + [C.TER]
+    out.append(("asp-pair-asp25B-at-chain-start", C.join(cutf), []))
     # two adjacent copies of one ligand in one chain: distinct groups with the same printed label that interact
     ftj = [ln for ln in C.body(C.test_pdb_text("1FTJ-Chain-A")) if C.is_atom(ln) or ln.startswith("TER")]
     lig = [ln for ln in ftj if ln.startswith("HETATM") and ln[17:20] == "GLU"]
